@@ -84,6 +84,10 @@ pub enum Op {
     Redecode,
     /// replace the record by its clone
     CloneSwap,
+    /// replace the record by from_str(to_base64(record)), with or without the `enr:` prefix
+    Reparse { prefix: bool },
+    /// replace the record by the one serde_json reads back from its JSON form
+    Reserde,
 }
 
 impl Op {
@@ -101,7 +105,7 @@ impl Op {
             | Op::RemoveKey { k, .. }
             | Op::RemoveInsert { k, .. }
             | Op::SetPublicKey { k, .. } => Some(*k),
-            Op::Redecode | Op::CloneSwap => None,
+            Op::Redecode | Op::CloneSwap | Op::Reparse { .. } | Op::Reserde => None,
         }
     }
     /// name of the public function called
@@ -137,10 +141,12 @@ impl Op {
             Op::SetPublicKey { .. } => "set_public_key",
             Op::Redecode => "redecode",
             Op::CloneSwap => "clone",
+            Op::Reparse { .. } => "reparse",
+            Op::Reserde => "reserde",
         }
     }
     pub fn is_mutator(&self) -> bool {
-        !matches!(self, Op::Redecode | Op::CloneSwap)
+        !matches!(self, Op::Redecode | Op::CloneSwap | Op::Reparse { .. } | Op::Reserde)
     }
 }
 
